@@ -63,7 +63,7 @@ type harness struct {
 	mempool   []*hTx // transactions accepted into the node's mempool (by the self-test)
 	lastMemTx *hTx   // tail of the chain of mempool txs; output 0 is spendable
 
-	consumerBusy atomic.Int32
+	txSync, blkSync chan chan struct{}
 	consumerErr  []string
 	consumerMu   sync.Mutex
 	blocksQueued atomic.Int64
@@ -193,6 +193,7 @@ func newHarness(logPath string, synchronized bool) *harness {
 	network.FriendsAccess.Unlock()
 
 	// minimal consumers of the two channels the main loop would serve
+	h.txSync, h.blkSync = make(chan chan struct{}), make(chan chan struct{})
 	go h.consumeTxs()
 	go h.consumeBlocks()
 
@@ -223,29 +224,39 @@ func (h *harness) cleanup() {
 	os.RemoveAll(h.tmp)
 }
 
+// The consumers answer a sync request only between two elements, so "answered + channel empty" means
+// that everything queued so far has been handled completely (no window between receive and count).
 func (h *harness) consumeTxs() {
-	for ntx := range network.NetTxs {
-		h.consumerBusy.Add(1)
-		func() {
-			defer func() {
-				if r := recover(); r != nil {
-					buf := make([]byte, 16384)
-					buf = buf[:runtime.Stack(buf, false)]
-					h.consumerMu.Lock()
-					h.consumerErr = append(h.consumerErr, fmt.Sprintf("%v\n%s", r, buf))
-					h.consumerMu.Unlock()
-				}
+	for {
+		select {
+		case ack := <-h.txSync:
+			ack <- struct{}{}
+		case ntx := <-network.NetTxs:
+			func() {
+				defer func() {
+					if r := recover(); r != nil {
+						buf := make([]byte, 16384)
+						buf = buf[:runtime.Stack(buf, false)]
+						h.consumerMu.Lock()
+						h.consumerErr = append(h.consumerErr, fmt.Sprintf("%v\n%s", r, buf))
+						h.consumerMu.Unlock()
+					}
+				}()
+				txpool.HandleNetTx(ntx) // what the main loop does with an element of NetTxs
+				h.txsHandled.Add(1)
 			}()
-			txpool.HandleNetTx(ntx) // what the main loop does with an element of NetTxs
-			h.txsHandled.Add(1)
-		}()
-		h.consumerBusy.Add(-1)
+		}
 	}
 }
 
 func (h *harness) consumeBlocks() {
-	for range network.NetBlocks {
-		h.blocksQueued.Add(1) // the main loop (block connection) is not part of this property
+	for {
+		select {
+		case ack := <-h.blkSync:
+			ack <- struct{}{}
+		case <-network.NetBlocks:
+			h.blocksQueued.Add(1) // the main loop (block connection) is not part of this property
+		}
 	}
 }
 
@@ -651,13 +662,27 @@ func (h *harness) probes(c *network.OneConnection) []lockProbe {
 	}
 }
 
-// quiesce waits until the NetTxs consumer is idle.
+// quiesce returns when both consumers have handled everything that was queued.
 func (h *harness) quiesce() {
-	for i := 0; i < 5000; i++ {
-		if len(network.NetTxs) == 0 && h.consumerBusy.Load() == 0 && len(network.NetBlocks) == 0 {
+	// (bounded: a consumer stuck on a mutex leaked by a handler must not stop the lock probes)
+	deadline := time.After(3 * time.Second)
+	for round := 0; round < 1000; round++ {
+		a, b := make(chan struct{}, 1), make(chan struct{}, 1)
+		select {
+		case h.txSync <- a:
+			<-a
+		case <-deadline:
 			return
 		}
-		time.Sleep(time.Millisecond)
+		select {
+		case h.blkSync <- b:
+			<-b
+		case <-deadline:
+			return
+		}
+		if len(network.NetTxs) == 0 && len(network.NetBlocks) == 0 {
+			return
+		}
 	}
 }
 
